@@ -401,6 +401,39 @@ def changeVartypeWith [Add R] [Mul R] [Zero R] (toBinary toSpin : PyTable R) (m 
 
 end LBqm
 
+abbrev PairMap (R : Type) := ODict (Label × Label) R
+
+/-! ### constructors from dicts (`binary_quadratic_model.py: _init_components`, `from_ising`, `from_qubo`) -/
+
+namespace LBqm
+
+/-- one item of the `quadratic` mapping: a diagonal entry is a linear bias (BINARY) or a constant (SPIN), anything else goes
+    through `add_quadratic` (so `(u, v)` and `(v, u)` accumulate) -/
+def initQuadStep [Add R] [Zero R] (vt : VT) (m : LBqm R) (e : (Label × Label) × R) : LBqm R :=
+  if e.1.1 = e.1.2 then
+    match vt with
+    | .binary => m.addLinear e.1.1 e.2
+    | .spin => { m with off := m.off + e.2 }
+  else
+    match m.addQuadratic e.1.1 e.1.2 e.2 with
+    | .ok m' => m'
+    | .error _ => m
+
+/-- `_init_components(linear, quadratic, offset, vartype)` for mapping arguments: offset, then the quadratic items, then
+    `add_linear_from(linear)` -/
+def initComponents [Add R] [Zero R] (vt : VT) (linear : ODict Label R) (quadratic : PairMap R) (offset : R) : LBqm R :=
+  let m0 : LBqm R := { vt, adj := [], off := offset }
+  let m1 := quadratic.foldl (initQuadStep vt) m0
+  linear.foldl (fun m p => m.addLinear p.1 p.2) m1
+
+/-- `BQM.from_ising(h, J, offset)` = `cls(h, J, offset, SPIN)` -/
+def fromIsing [Add R] [Zero R] (h : ODict Label R) (J : PairMap R) (offset : R) : LBqm R := initComponents .spin h J offset
+
+/-- `BQM.from_qubo(Q, offset)` = `cls({}, Q, offset, BINARY)` -/
+def fromQubo [Add R] [Zero R] (Q : PairMap R) (offset : R) : LBqm R := initComponents .binary [] Q offset
+
+end LBqm
+
 /-! ### `VartypeView` -/
 
 open Generated.Vartype in
@@ -560,8 +593,6 @@ def SSet.changeVartypeDeferred [Add R] [Sub R] [Mul R] [Div R] [Zero R] [One R] 
   fun u => (pending u).changeVartype target energyOffset
 
 /-! ## `ising_to_qubo` / `qubo_to_ising` (`utilities.py`) -/
-
-abbrev PairMap (R : Type) := ODict (Label × Label) R
 
 /-- `ising_to_qubo(h, J, offset)`; `4.`, `2.` are the literals of the source -/
 def isingToQubo [Add R] [Mul R] [Sub R] [Zero R] [One R] [DecidableEq R] (h : ODict Label R) (J : PairMap R) (offset : R) : PairMap R × R :=
